@@ -194,19 +194,20 @@ macro_rules! pack_unpack {
             bit_pack(&w, $a, $b, &mut v);
             match bit_unpack(&v, $a, $b) {
                 Ok(w2) => {
-                    kani::assert(w2.0[p] == x0 && w2.0[p + 1] == x1, "C08: BitUnpack(BitPack(w)) != w");
+                    kani::assert(w2.0[p] == x0 && w2.0[p + 1] == x1, "C08/C09: BitUnpack(BitPack(w)) != w");
                     let q: usize = kani::any();
                     kani::assume(q < 256 && q != p && q != p + 1);
-                    kani::assert(w2.0[q] == 0, "C08: BitPack leaks bits into a neighbouring coefficient");
+                    kani::assert(w2.0[q] == 0, "C08/C09: BitPack leaks bits into a neighbouring coefficient");
                     kani::cover!(x0 == -($a) && x1 == $b);
                     core::mem::forget(w2);
                 }
-                Err(_) => kani::assert(false, "C08: BitUnpack rejected the encoding of an in-range vector"),
+                Err(_) => kani::assert(false, "C08/C09: BitUnpack rejected the encoding of an in-range vector"),
             }
             core::mem::forget(w);
         }
     };
 }
+pack_unpack!(c08_roundtrip_t0, 4095, 4096, 416);
 pack_unpack!(c08_roundtrip_eta2, 2, 2, 96);
 pack_unpack!(c08_roundtrip_eta4, 4, 4, 128);
 pack_unpack!(c08_roundtrip_w1_44, 0, 43, 192);
